@@ -325,6 +325,11 @@ func R5(pkgs ...string) func(p *core.Prog) *core.Result {
 		total := 0
 		// field invariant: remaining-length entries (lengthStack.current) never exceed the largest value pushed
 		lenHi := map[string]*big.Int{}
+		type pushObs struct {
+			lo      *big.Int
+			fn, pos string
+		}
+		pushLo := map[string]pushObs{}
 		lenLo := map[string]*big.Int{} // assumption: countdowns (current--, current -= consumed) never go below -1: each decrement is matched by an element / byte actually consumed
 		for _, f := range p.ModFuncs() {
 			pk := core.FuncPkg(f)
@@ -363,8 +368,34 @@ func R5(pkgs ...string) func(p *core.Prog) *core.Result {
 				if cur := lenLo[pk.Name()]; cur == nil || iv.lo.Cmp(cur) < 0 {
 					lenLo[pk.Name()] = iv.lo
 				}
+				if f.Signature.Recv() == nil || namedOf(f.Signature.Recv().Type()) == nil || namedOf(f.Signature.Recv().Type()).Obj().Name() != "Parser" {
+					return // encoders keep the caller's announced length, where any negative value means "unknown"
+				}
+				site := p.Pos(c.Pos())
+				if cur, ok := pushLo[site]; !ok || iv.lo.Cmp(cur.lo) < 0 {
+					pushLo[site] = pushObs{iv.lo, core.FuncKey(f), site}
+				}
 			}
 			WalkPaths[istate](k, f.Blocks[0], 0, istate{}, 400000, nil)
+		}
+		// LEN-PUSH: a remaining-length entry is a count (or the -1 that stands for "indefinite"), never anything below
+		{
+			var sites []string
+			for s := range pushLo {
+				sites = append(sites, s)
+			}
+			sort.Strings(sites)
+			ord := map[string]int{}
+			for _, s := range sites {
+				o := pushLo[s]
+				ord[o.fn]++
+				total++
+				if o.lo.Cmp(big.NewInt(-1)) >= 0 {
+					r.Ok(".LEN-PUSH", o.pos, fmt.Sprintf("%s: pushed remaining length is at least %s on every path", o.fn, o.lo.String()))
+				} else {
+					r.Fail(".LEN-PUSH", fmt.Sprintf("%s|push#%d", o.fn, ord[o.fn]), o.pos, fmt.Sprintf("%s pushes a remaining length that can be as low as %s: a wire integer becomes a negative count (containers that never end, negative collect sizes)", o.fn, o.lo.String()), "")
+				}
+			}
 		}
 		for _, f := range p.ModFuncs() {
 			pk := core.FuncPkg(f)
@@ -510,8 +541,46 @@ func R5(pkgs ...string) func(p *core.Prog) *core.Result {
 					o.bad = &cp
 				}
 			}
+			// NEG-SIGN: the decoder of CBOR major type 1 (negative integers, -1-n) only ever reports negative numbers
+			negHi := map[ssa.Instruction]*big.Int{}
+			if pk.Name() == "cborl" && f.Name() == "stepNeg" {
+				prev2 := k.observe
+				k.observe = func(s istate, ins ssa.Instruction) {
+					prev2(s, ins)
+					c, ok := ins.(*ssa.Call)
+					if !ok || !c.Common().IsInvoke() || !isNumEvent(c.Common().Method.Name()) || len(c.Common().Args) == 0 {
+						return
+					}
+					iv, ok := env.get(s, c.Common().Args[len(c.Common().Args)-1])
+					if !ok {
+						return
+					}
+					if cur := negHi[ins]; cur == nil || iv.hi.Cmp(cur) > 0 {
+						negHi[ins] = iv.hi
+					}
+				}
+			}
 			_, capped := WalkPaths[istate](k, f.Blocks[0], 0, istate{}, 400000, nil)
 			fkey := core.FuncKey(f)
+			if pk.Name() == "cborl" && f.Name() == "stepNeg" {
+				var il []ssa.Instruction
+				for in := range negHi {
+					il = append(il, in)
+				}
+				sort.Slice(il, func(i, j int) bool { return instrPos(il[i]) < instrPos(il[j]) })
+				for i, in := range il {
+					total++
+					pos := p.Pos(token.Pos(instrPos(in)))
+					if negHi[in].Sign() >= 0 {
+						r.Fail(".NEG-SIGN", fmt.Sprintf("%s|event#%d", fkey, i+1), pos, fmt.Sprintf("%s reports an item of major type 1 (a negative integer -1-n) with a value that can be as high as %s: for some argument the sign is lost (complement taken at the argument's width before widening, or a missing -1-n)", fkey, negHi[in].String()), "")
+					} else {
+						r.Ok(".NEG-SIGN", pos, fmt.Sprintf("%s: reported value is at most %s on every path", fkey, negHi[in].String()))
+					}
+				}
+				if len(il) < 4 {
+					r.Undecided(".NEG-SIGN", fkey, "expected at least 4 number events in the decoder of major type 1")
+				}
+			}
 			{
 				var il []ssa.Instruction
 				for in := range inl {
@@ -638,6 +707,9 @@ func R5(pkgs ...string) func(p *core.Prog) *core.Result {
 		}
 		if in["ubjson"] {
 			ubjsonMarkerTables(p, r)
+		}
+		if in["cborl"] && p.LookupFunc("cborl", "(*Parser).stepNeg") == nil {
+			r.Undecided(".NEG-SIGN", "cborl.(*Parser).stepNeg", "decoder of major type 1 (stepNeg) not found")
 		}
 		r.Floor("conversions_and_heads", total, 15*len(pkgs))
 		return r
